@@ -78,6 +78,7 @@ type Scenario struct {
 	FailKind string `json:"failkind"`
 	FailNth  int    `json:"failnth"`
 	Root     string `json:"root"` // non-empty: file-backed sqlite store in this directory
+	MaxAttPlugin bool `json:"maxattplugin"`
 	NegRetries bool `json:"negretries"` // actions are submitted with Retries -1 / -2: "less than none" is none (Shape.Retries stays 0)
 	LagIdx   bool   `json:"lagidx"` // ws histories: at a restart the search index may still list a finished plan as Running
 
@@ -129,7 +130,7 @@ func modelShape(sh Shape) ev {
 		if conc < 1 {
 			conc = 1
 		}
-		blocks = append(blocks, ev{"g": full(b.G), "seqs": b.Seqs, "conc": conc, "tol": b.Tol})
+		blocks = append(blocks, ev{"g": full(b.G), "seqs": b.Seqs, "conc": conc, "tol": min(b.Tol, len(b.Seqs))})
 	}
 	return ev{"pg": full(sh.PG), "blocks": blocks, "retries": sh.Retries, "cretries": sh.CRetries}
 }
@@ -149,12 +150,17 @@ func buildPlan(sc *Scenario, pl int) *workflow.Plan {
 	delay := 200 * time.Microsecond
 	if sc.ContDelayUs > 0 {
 		delay = time.Duration(sc.ContDelayUs) * time.Microsecond
+	} else if sc.ContDelayUs == -2 {
+		delay = -time.Millisecond // a negative Delay: cannot be waited for, the checks run back to back as well
 	} else if sc.ContDelayUs < 0 {
 		delay = 0 // Checks.Delay unset: the continuous checks run back to back
 	}
 	seqPlugin := "act"
 	if sc.NoRespPlugin {
 		seqPlugin = "actnr" // sequence actions use the plugin that declares no response type
+	}
+	if sc.MaxAttPlugin {
+		seqPlugin = "actma" // ... the plugin whose RetryPolicy declares MaxAttempts 6
 	}
 	mk := func(prefix string, n int) *workflow.Checks {
 		c := &workflow.Checks{Delay: delay}
@@ -228,7 +234,8 @@ func describe(p *workflow.Plan, sh Shape, nm *names) ([]desc, []any) {
 		if conc < 1 {
 			conc = 1
 		}
-		blocks = append(blocks, ev{"b": bi + 1, "conc": conc, "tol": sh.Blocks[bi].Tol, "nseq": len(b.Sequences)})
+		// a tolerance of more failures than there are sequences is recorded as "all of them" (TLC integers are 32 bit)
+		blocks = append(blocks, ev{"b": bi + 1, "conc": conc, "tol": min(sh.Blocks[bi].Tol, len(b.Sequences)), "nseq": len(b.Sequences)})
 		for _, g := range groupOrder {
 			addChecks(*groupPtr(p, b, g), b.Name, g, bi+1)
 		}
@@ -376,6 +383,7 @@ func mkReg(s *sched) *registry.Register {
 	reg.MustRegister(&plug{name: "act", s: s})
 	reg.MustRegister(&plug{name: "chk", check: true, s: s})
 	reg.MustRegister(&plug{name: "actnr", noresp: true, s: s})
+	reg.MustRegister(&plug{name: "actma", maxAtt: 6, s: s})
 	return reg
 }
 
